@@ -674,6 +674,54 @@ class Fn:
         return out
 
 
+class FnView:
+    """mapping id -> Fn handed to the rules. With `inline_mode` off it is the plain dict; with it on, every lookup and
+    every iteration yields the inlined view of the function (axvlib.inline), built lazily and cached."""
+
+    def __init__(self, prog, raw):
+        self.prog = prog
+        self.raw = raw
+        self.cache = {}
+
+    def _v(self, f):
+        if f is None or not self.prog.inline_mode:
+            return f
+        v = self.cache.get(f.id, 0)
+        if v == 0:
+            from . import inline
+            try:
+                v = inline.inlined_view(self.prog, f)
+            except Exception:
+                v = None
+            self.cache[f.id] = v
+        return v or f
+
+    def __getitem__(self, k):
+        return self._v(self.raw[k])
+
+    def get(self, k, d=None):
+        f = self.raw.get(k)
+        return self._v(f) if f is not None else d
+
+    def __contains__(self, k):
+        return k in self.raw
+
+    def __iter__(self):
+        return iter(self.raw)
+
+    def __len__(self):
+        return len(self.raw)
+
+    def keys(self):
+        return self.raw.keys()
+
+    def values(self):
+        return [self._v(f) for f in self.raw.values()]
+
+    def items(self):
+        return [(k, self._v(f)) for k, f in self.raw.items()]
+
+
 class Program:
     def __init__(self, fdir):
         self.fdir = fdir
@@ -691,6 +739,9 @@ class Program:
             elif extra == "axmos_server":
                 raise ExtractionFailed("facts of the server binary are missing in %s" % fdir)
         self._resolve_named_consts()
+        self.inline_mode = False
+        self.raw_fns = self.fns
+        self.fns = FnView(self, self.raw_fns)
         self._callers = None
         self._edges = None
         self._trait_impl_methods = None
@@ -879,7 +930,7 @@ class Program:
     def edges(self):
         if self._edges is None:
             e = collections.defaultdict(set)
-            for f in self.fns.values():
+            for f in self.raw_fns.values():
                 for c in f.calls():
                     for t in self.targets(c):
                         e[f.id].add(t)
@@ -898,6 +949,42 @@ class Program:
             self._callers = c
         return self._callers
 
+    def transparent(self, fid, _depth=0):
+        """H is a transparent helper when every call of it is inlined into the caller's view (axvlib.inline): it has
+        callers, all of them in its own source file and none of them H itself, it is not a closure, small enough, and
+        is called directly. In inline mode the who-may-call rules attribute what H does to the functions that call it."""
+        memo = self.__dict__.setdefault("_transparent", {})
+        if fid in memo:
+            return memo[fid]
+        from . import inline
+        h = self.raw_fns.get(fid)
+        ok = False
+        if h is not None and h.kind != "closure" and len(h.blocks) <= inline.MAX_CALLEE_BLOCKS:
+            sites = self.call_sites_into(fid)
+            ok = bool(sites)
+            for g, c in sites:
+                if g.file != h.file or (g.root or g.id) == fid or c.ind or c.rkind == "virtual" or c.term["fn"].get("res") != fid:
+                    ok = False
+                    break
+        memo[fid] = ok
+        return ok
+
+    def effective_callers(self, fid, allowed=None, _seen=None):
+        """callers of fid; in inline mode a transparent helper that is not itself an allowed caller is replaced by its own
+        (effective) callers, so that a who-may-call table judges the functions the helper was extracted from"""
+        out = set()
+        _seen = _seen or set()
+        allowed = set(allowed) if allowed is not None else None
+        for c in self.callers().get(fid, ()):
+            root = (self.raw_fns[c].root or c) if c in self.raw_fns else c
+            if allowed is not None and (c in allowed or root in allowed):
+                out.add(c)
+            elif self.inline_mode and c not in _seen and self.transparent(root) and len(_seen) < 6:
+                out |= self.effective_callers(root, allowed, _seen | {c, root})
+            else:
+                out.add(c)
+        return out
+
     def call_sites_of(self, pred):
         """all call sites whose target set contains a function satisfying pred
         (pred: callable on fn id, or a fn id string)"""
@@ -905,7 +992,7 @@ class Program:
             pid = pred
             pred = lambda x: x == pid
         out = []
-        for f in self.fns.values():
+        for f in self.raw_fns.values():
             for c in f.calls():
                 if any(pred(t) for t in self.targets(c)):
                     out.append(c)
@@ -956,7 +1043,7 @@ class Program:
         idx = getattr(self, "_sites_into", None)
         if idx is None:
             idx = collections.defaultdict(list)
-            for g in self.fns.values():
+            for g in self.raw_fns.values():
                 for c in g.calls():
                     for t in self.targets(c):
                         idx[t].append((g, c))
@@ -1011,7 +1098,7 @@ class Program:
         empty and entirely inside T*)."""
         T = set(targets)
         changed = True
-        cand = [f for f in self.fns.values() if (scope is None or f.id in scope)]
+        cand = [f for f in self.raw_fns.values() if (scope is None or f.id in scope)]
         while changed:
             changed = False
             for f in cand:
@@ -1056,7 +1143,7 @@ class Program:
             changed = True
             while changed:
                 changed = False
-                for f in self.fns.values():
+                for f in self.raw_fns.values():
                     if f.id in h:
                         continue
                     hit = {c.bb for c in f.calls() if c.defn in base and c.term["fn"].get("res") is None}
